@@ -455,4 +455,391 @@ theorem C31_redact_all (ok : List Char → Bool) (url out : List Char) (h : reda
             · exact digit_authSafe (decDigits_digits _ _ c hc)
           · simp at h
 
+/-! ### the grammar theorem -/
+namespace UrlAux
+open Spec (UrlParts WellFormed render shown)
+
+theorem c0_table : ∀ n ∈ Gen.Fetch.c0OrSpace, n ≤ 32 := by decide
+theorem scheme_table : ∀ n, n < 128 →
+    (((65 ≤ n && n ≤ 90) || (97 ≤ n && n ≤ 122)) || (48 ≤ n && n ≤ 57) || n == 43 || n == 45 || n == 46) = true →
+    Gen.Fetch.schemeChars.contains n = true := by decide
+
+theorem not_c0 {c : Char} (h : 33 ≤ c.toNat) : isC0OrSpace c = false := by
+  unfold isC0OrSpace
+  cases hc : Gen.Fetch.c0OrSpace.contains c.toNat with
+  | false => rfl
+  | true =>
+    have := c0_table _ (by simpa using hc)
+    omega
+
+theorem plain_iff {c : Char} : Spec.isPlain c = true ↔ isUnsafeRemoved c = false := by
+  simp [Spec.isPlain, isUnsafeRemoved, Gen.Fetch.unsafeRemoved, and_assoc]
+
+theorem spec_scheme_facts {c : Char} (h : Spec.isSchemeChar c = true) :
+    isSchemeChar c = true ∧ c ≠ ':' ∧ Spec.isPlain c = true ∧ 33 ≤ c.toNat := by
+  have hn : c.toNat < 128 ∧ c.toNat ≠ 58 ∧ c.toNat ≠ 9 ∧ c.toNat ≠ 10 ∧ c.toNat ≠ 13 ∧ 33 ≤ c.toNat := by
+    simp only [Spec.isSchemeChar, Spec.isAlpha, Spec.isDigit, Bool.or_eq_true, Bool.and_eq_true, decide_eq_true_eq,
+      beq_iff_eq] at h
+    omega
+  refine ⟨?_, ne_of_toNat hn.2.1, ?_, hn.2.2.2.2.2⟩
+  · unfold isSchemeChar
+    apply scheme_table _ hn.1
+    simpa [Spec.isSchemeChar, Spec.isAlpha, Spec.isDigit] using h
+  · simp [Spec.isPlain]; omega
+
+theorem filter_self {α : Type} (p : α → Bool) (l : List α) (h : ∀ x ∈ l, p x = true) : l.filter p = l :=
+  List.filter_eq_self.mpr h
+
+theorem cleanUrl_id (c0 : Char) (t : List Char) (h0 : isC0OrSpace c0 = false)
+    (hp : ∀ c ∈ c0 :: t, isUnsafeRemoved c = false) : cleanUrl (c0 :: t) = c0 :: t := by
+  unfold cleanUrl
+  rw [List.dropWhile_cons_of_neg (by simp [h0])]
+  exact filter_self _ _ (fun x hx => by simp [hp x hx])
+
+theorem contains_false {l : List Char} {c : Char} (h : ∀ x ∈ l, x ≠ c) : l.contains c = false := by
+  cases hc : l.contains c with
+  | false => rfl
+  | true =>
+    have : c ∈ l := by simpa using hc
+    exact absurd rfl (h c this)
+
+/-- authority and the rest of a grammar URL -/
+def authOf (p : UrlParts) : List Char :=
+  Spec.uiText p.userinfo ++ p.host ++ Spec.optPre ':' p.port
+def restOf (p : UrlParts) : List Char :=
+  p.path ++ Spec.optPre '?' p.query ++ Spec.optPre '#' p.fragment
+
+theorem render_eq (p : UrlParts) : render p = p.scheme ++ ':' :: '/' :: '/' :: (authOf p ++ restOf p) := by
+  have : "://".toList = [':', '/', '/'] := rfl
+  simp [render, authOf, restOf, this, List.append_assoc]
+
+theorem digit_facts {c : Char} (h : Spec.isDigit c = true) :
+    isAsciiDigit c = true ∧ isAscii c = true ∧ Spec.isPlain c = true ∧ c ≠ '/' ∧ c ≠ '?' ∧ c ≠ '#' ∧ c ≠ '[' ∧ c ≠ ']' ∧ c ≠ '@' ∧ c ≠ ':' := by
+  have hn : 48 ≤ c.toNat ∧ c.toNat ≤ 57 := by simpa [Spec.isDigit] using h
+  refine ⟨by simp [isAsciiDigit]; omega, by simp [isAscii]; omega, by simp [Spec.isPlain]; omega, ?_, ?_, ?_, ?_, ?_, ?_, ?_⟩ <;>
+    exact ne_of_toNat (by simp; omega)
+
+end UrlAux
+
+namespace UrlAux
+open Spec (UrlParts WellFormed render shown)
+
+theorem lower_eq : Spec.lower = asciiLower := rfl
+
+theorem lower_ne_colon {c : Char} (h : c ≠ ':') : asciiLower c ≠ ':' := by
+  apply ne_of_toNat
+  rw [asciiLower_toNat]
+  have : c.toNat ≠ 58 := fun e => h (Char.toNat_inj.mp e)
+  unfold natLower
+  split <;> simp <;> omega
+
+theorem decValue_append (l : List Char) (d : Char) : decValue (l ++ [d]) = decValue l * 10 + (d.toNat - 48) := by
+  simp [decValue, List.foldl_append]
+
+theorem decValue_decDigits : ∀ (f n : Nat), n < f → decValue (decDigits f n) = n := by
+  intro f
+  induction f with
+  | zero => intro n h; omega
+  | succ f ih =>
+    intro n h
+    unfold decDigits
+    split
+    · rename_i h10
+      simp [decValue, digitChar_toNat]; omega
+    · rw [decValue_append, ih (n / 10) (by omega), digitChar_toNat]; omega
+
+theorem decValue_natToDec (n : Nat) : decValue (natToDec n) = n := decValue_decDigits _ _ (by omega)
+
+theorem optPre_mem {pre : Char} {o : Option (List Char)} {c : Char} (h : c ∈ Spec.optPre pre o) :
+    c = pre ∨ ∃ q, o = some q ∧ c ∈ q := by
+  cases o with
+  | none => simp [Spec.optPre] at h
+  | some q =>
+    simp only [Spec.optPre, List.mem_cons] at h
+    rcases h with h | h
+    · exact Or.inl h
+    · exact Or.inr ⟨q, rfl, h⟩
+
+theorem uiText_mem {o : Option (List Char)} {c : Char} (h : c ∈ Spec.uiText o) : c = '@' ∨ ∃ u, o = some u ∧ c ∈ u := by
+  cases o with
+  | none => simp [Spec.uiText] at h
+  | some u =>
+    simp only [Spec.uiText, List.mem_append, List.mem_singleton] at h
+    rcases h with h | h
+    · exact Or.inr ⟨u, rfl, h⟩
+    · exact Or.inl h
+
+/-- facts about the characters of the authority of a grammar URL -/
+theorem auth_chars (p : UrlParts) (wf : WellFormed p) : ∀ c ∈ authOf p,
+    isAscii c = true ∧ Spec.isPlain c = true ∧ c ≠ '/' ∧ c ≠ '?' ∧ c ≠ '#' ∧ c ≠ '[' ∧ c ≠ ']' := by
+  intro c hc
+  simp only [authOf, List.mem_append] at hc
+  rcases hc with (hc | hc) | hc
+  · rcases uiText_mem hc with rfl | ⟨u, hu, hcu⟩
+    · decide
+    · obtain ⟨h1, h2, h3, h4, h5, h6, h7⟩ := wf.userinfo_chars u (by simp [hu]) c hcu
+      exact ⟨h1, h2, h3, h4, h5, h6, h7⟩
+  · obtain ⟨h1, h2, h3, h4, h5, h6, h7, _⟩ := wf.host_chars c hc
+    exact ⟨h1, h2, h3, h4, h5, h6, h7⟩
+  · rcases optPre_mem hc with rfl | ⟨q, hq, hcq⟩
+    · decide
+    · obtain ⟨_, hd, _⟩ := wf.port_ok q (by simp [hq])
+      obtain ⟨_, h1, h2, h3, h4, h5, h6, h7, _⟩ := digit_facts (hd c hcq)
+      exact ⟨h1, h2, h3, h4, h5, h6, h7⟩
+
+theorem rest_plain (p : UrlParts) (wf : WellFormed p) : ∀ c ∈ restOf p, Spec.isPlain c = true := by
+  intro c hc
+  simp only [restOf, List.mem_append] at hc
+  rcases hc with (hc | hc) | hc
+  · exact (wf.path_chars c hc).1
+  · rcases optPre_mem hc with rfl | ⟨q, hq, hcq⟩
+    · decide
+    · exact (wf.query_chars q (by simp [hq]) c hcq).1
+  · rcases optPre_mem hc with rfl | ⟨q, hq, hcq⟩
+    · decide
+    · exact wf.fragment_chars q (by simp [hq]) c hcq
+
+/-- the rest of a grammar URL is empty or starts with `/`, `?` or `#` -/
+theorem rest_head (p : UrlParts) (wf : WellFormed p) :
+    restOf p = [] ∨ ∃ c t, restOf p = c :: t ∧ (fun x => !isNetlocEnd x) c = false := by
+  unfold restOf
+  rcases wf.path_ok with hp | hp
+  · rw [hp]
+    cases hq : p.query with
+    | some q => right; exact ⟨'?', q ++ Spec.optPre '#' p.fragment, by simp [Spec.optPre], by decide⟩
+    | none =>
+      cases hf : p.fragment with
+      | some f => right; exact ⟨'#', f, by simp [Spec.optPre], by decide⟩
+      | none => left; simp [Spec.optPre]
+  · cases hpp : p.path with
+    | nil => rw [hpp] at hp; simp at hp
+    | cons c t =>
+      rw [hpp] at hp
+      simp only [List.head?_cons, Option.some.injEq] at hp
+      subst hp
+      right
+      exact ⟨'/', t ++ Spec.optPre '?' p.query ++ Spec.optPre '#' p.fragment, by simp, by decide⟩
+
+theorem partition_opt (sep : Char) (a : List Char) (o : Option (List Char)) (ha : ∀ x ∈ a, x ≠ sep) :
+    (partitionC sep (a ++ Spec.optPre sep o)).1 = a ∧ (partitionC sep (a ++ Spec.optPre sep o)).2.2 = o.getD [] := by
+  cases o with
+  | none => simp [Spec.optPre, partition_absent sep a ha]
+  | some q => simp [Spec.optPre, partition_found sep a q ha]
+
+theorem urlsplit_render (ok : List Char → Bool) (p : UrlParts) (wf : WellFormed p) :
+    urlsplit ok (render p) =
+      .ok ⟨p.scheme.map asciiLower, authOf p, p.path, p.query.getD [], p.fragment.getD []⟩ := by
+  obtain ⟨c0, t, hs⟩ : ∃ c0 t, p.scheme = c0 :: t := by
+    cases h : p.scheme with
+    | nil => exact absurd h wf.scheme_ne
+    | cons c0 t => exact ⟨c0, t, rfl⟩
+  have halpha : Spec.isAlpha c0 = true := wf.scheme_first c0 (by simp [hs])
+  have hschars : ∀ c ∈ p.scheme, isSchemeChar c = true ∧ c ≠ ':' ∧ Spec.isPlain c = true ∧ 33 ≤ c.toNat :=
+    fun c hc => spec_scheme_facts (wf.scheme_chars c hc)
+  have hauth := auth_chars p wf
+  -- 1. nothing is stripped or removed
+  have hplain : ∀ c ∈ render p, isUnsafeRemoved c = false := by
+    intro c hc
+    rw [render_eq] at hc
+    simp only [List.mem_append, List.mem_cons] at hc
+    apply plain_iff.mp
+    rcases hc with hc | rfl | rfl | rfl | hc | hc
+    · exact (hschars c hc).2.2.1
+    · decide
+    · decide
+    · decide
+    · exact (hauth c hc).2.1
+    · exact rest_plain p wf c hc
+  have hclean : cleanUrl (render p) = render p := by
+    have hr : render p = c0 :: (t ++ ':' :: '/' :: '/' :: (authOf p ++ restOf p)) := by rw [render_eq, hs]; rfl
+    rw [hr] at hplain ⊢
+    exact cleanUrl_id c0 _ (not_c0 (hschars c0 (by simp [hs])).2.2.2) hplain
+  -- 2. scheme
+  have hscheme : splitScheme (render p) = (p.scheme.map asciiLower, '/' :: '/' :: (authOf p ++ restOf p)) := by
+    unfold splitScheme
+    rw [render_eq, partition_found ':' p.scheme _ (fun x hx => (hschars x hx).2.1)]
+    simp only [hs]
+    have h1 : isAsciiAlpha c0 = true := halpha
+    have h2 : (c0 :: t).all isSchemeChar = true := by
+      rw [List.all_eq_true]; intro x hx; exact (hschars x (hs ▸ hx)).1
+    simp [h1, h2]
+  -- 3. netloc
+  have hnet : splitNetloc ('/' :: '/' :: (authOf p ++ restOf p)) = (authOf p, restOf p) := by
+    rw [splitNetloc_slash]
+    have := span_append (fun x => !isNetlocEnd x) (authOf p) (restOf p)
+      (fun x hx => by
+        obtain ⟨_, _, h3, h4, h5, _⟩ := hauth x hx
+        simp [isNetlocEnd, h3, h4, h5])
+      (rest_head p wf)
+    rw [this.1, this.2]
+  -- 4. fragment and query
+  have hfrag := partition_opt '#' (p.path ++ Spec.optPre '?' p.query) p.fragment (by
+    intro x hx
+    simp only [List.mem_append] at hx
+    rcases hx with hx | hx
+    · exact (wf.path_chars x hx).2.2.1
+    · rcases optPre_mem hx with rfl | ⟨q, hq, hxq⟩
+      · decide
+      · exact (wf.query_chars q (by simp [hq]) x hxq).2)
+  have hquery := partition_opt '?' p.path p.query (fun x hx => (wf.path_chars x hx).2.1)
+  have hrest : restOf p = (p.path ++ Spec.optPre '?' p.query) ++ Spec.optPre '#' p.fragment := rfl
+  unfold urlsplit
+  simp only [hclean, hscheme, hnet]
+  have hascii : (authOf p).all isAscii = true := by
+    rw [List.all_eq_true]; exact fun x hx => (hauth x hx).1
+  have hb1 : (authOf p).contains '[' = false := contains_false (fun x hx => (hauth x hx).2.2.2.2.2.1)
+  have hb2 : (authOf p).contains ']' = false := contains_false (fun x hx => (hauth x hx).2.2.2.2.2.2)
+  simp only [hascii, hb1, hb2, Bool.not_true, Bool.false_eq_true, if_false, bne_self_eq_false, Bool.false_and]
+  rw [hrest, hfrag.1, hfrag.2, hquery.1, hquery.2]
+
+end UrlAux
+
+namespace UrlAux
+open Spec (UrlParts WellFormed render shown)
+
+theorem hostInfo_auth (p : UrlParts) (wf : WellFormed p) : hostInfo (authOf p) = (p.host, p.port.getD []) := by
+  have hhost := wf.host_chars
+  have hportchars : ∀ c ∈ Spec.optPre ':' p.port, c ≠ '@' ∧ c ≠ '[' := by
+    intro c hc
+    rcases optPre_mem hc with rfl | ⟨q, hq, hcq⟩
+    · exact ⟨by decide, by decide⟩
+    · obtain ⟨_, hd, _⟩ := wf.port_ok q (by simp [hq])
+      obtain ⟨_, _, _, _, _, _, h1, _, h2, _⟩ := digit_facts (hd c hcq)
+      exact ⟨h2, h1⟩
+  have hhp : ∀ c ∈ p.host ++ Spec.optPre ':' p.port, c ≠ '@' ∧ c ≠ '[' := by
+    intro c hc
+    simp only [List.mem_append] at hc
+    rcases hc with hc | hc
+    · exact ⟨(hhost c hc).2.2.2.2.2.2.2.1, (hhost c hc).2.2.2.2.2.1⟩
+    · exact hportchars c hc
+  have hr : (rpartitionC '@' (authOf p)).2.2 = p.host ++ Spec.optPre ':' p.port := by
+    unfold authOf
+    cases hu : p.userinfo with
+    | none =>
+      simp only [Spec.uiText, List.nil_append]
+      rw [rpartition_absent '@' _ (fun x hx => (hhp x hx).1)]
+    | some u =>
+      have : Spec.uiText (some u) ++ p.host ++ Spec.optPre ':' p.port = u ++ '@' :: (p.host ++ Spec.optPre ':' p.port) := by
+        simp [Spec.uiText, List.append_assoc]
+      rw [this, rpartition_found '@' u _ (fun x hx => (hhp x hx).1)]
+  unfold hostInfo
+  simp only [hr]
+  rw [partition_absent '[' _ (fun x hx => (hhp x hx).2)]
+  simp only [Bool.false_eq_true, if_false]
+  have := partition_opt ':' p.host p.port (fun x hx => (hhost x hx).2.2.2.2.2.2.2.2.1)
+  rw [this.1, this.2]
+
+theorem leadSlash_id (path : List Char) (h : path = [] ∨ path.head? = some '/') : leadSlash path = path := by
+  rcases h with rfl | h
+  · rfl
+  · cases path with
+    | nil => rfl
+    | cons c t =>
+      simp only [List.head?_cons, Option.some.injEq] at h
+      subst h
+      simp [leadSlash]
+
+end UrlAux
+
+open UrlAux Spec in
+/-- **redact, grammar**: for every URL `scheme://[userinfo@]host[:port]path[?query][#fragment]` of the grammar,
+`redact_url` returns exactly `scheme://host[:port]path` (scheme and host lower-cased, the port as a number):
+the userinfo, the query and the fragment are gone, whatever they contain. -/
+theorem C31_redact (ok : List Char → Bool) (p : UrlParts) (wf : WellFormed p) :
+    ∃ portText, redactE ok (render p) = .ok (shown p portText) ∧
+      (∀ c ∈ portText, Spec.isDigit c = true) ∧ (∀ q ∈ p.port, portValue portText = portValue q) := by
+  have hsplit := urlsplit_render ok p wf
+  have hhi := hostInfo_auth p wf
+  have hscheme_ne : (p.scheme.map asciiLower).isEmpty = false := by
+    cases h : p.scheme with
+    | nil => exact absurd h wf.scheme_ne
+    | cons a t => rfl
+  have hauth_ne : (authOf p).isEmpty = false := by
+    cases hh : p.host with
+    | nil => exact absurd hh wf.host_ne
+    | cons a t =>
+      unfold authOf
+      rw [hh]
+      cases Spec.uiText p.userinfo <;> rfl
+  have hhost_ne : p.host.isEmpty = false := by
+    cases hh : p.host with
+    | nil => exact absurd hh wf.host_ne
+    | cons a t => rfl
+  have hlow : lowerHost p.host = p.host.map asciiLower := by
+    unfold lowerHost
+    rw [partition_absent '%' _ (fun x hx => (wf.host_chars x hx).2.2.2.2.2.2.2.2.2)]
+    simp
+  have hrend : renderHost (p.host.map asciiLower) = p.host.map asciiLower := by
+    unfold renderHost
+    have : (p.host.map asciiLower).contains ':' = false := by
+      apply contains_false
+      intro x hx
+      simp only [List.mem_map] at hx
+      obtain ⟨y, hy, rfl⟩ := hx
+      exact lower_ne_colon (wf.host_chars y hy).2.2.2.2.2.2.2.2.1
+    rw [this]
+    rfl
+  have hpp : parsedPath ⟨p.scheme.map asciiLower, authOf p, p.path, p.query.getD [], p.fragment.getD []⟩ = p.path := by
+    unfold parsedPath
+    have : p.path.contains ';' = false := contains_false (fun x hx => (wf.path_chars x hx).2.2.2)
+    show (if (Gen.Fetch.usesParams.contains (p.scheme.map asciiLower) && p.path.contains ';') = true then dropParams p.path
+      else p.path) = p.path
+    rw [this, Bool.and_false]
+    rfl
+  have hlead := leadSlash_id p.path wf.path_ok
+  have hstr : "://".toList = [':', '/', '/'] := rfl
+  unfold redactE
+  simp only [hsplit, hscheme_ne, hauth_ne, hhi, hhost_ne, Bool.or_self, Bool.false_eq_true, if_false, hlow, hrend, hpp, hlead]
+  cases hport : p.port with
+  | none =>
+    refine ⟨[], ?_, by simp, by simp⟩
+    simp [shown, hport, lower_eq, hstr, List.append_assoc]
+  | some q =>
+    obtain ⟨hq_ne, hq_digits, hq_val⟩ := wf.port_ok q (by simp [hport])
+    have h1 : q.isEmpty = false := by cases q with
+      | nil => exact absurd rfl hq_ne
+      | cons a t => rfl
+    have h2 : q.all isAsciiDigit = true := by
+      rw [List.all_eq_true]; exact fun x hx => (digit_facts (hq_digits x hx)).1
+    have h3 : decValue q ≤ 65535 := hq_val
+    refine ⟨natToDec (decValue q), ?_, ?_, ?_⟩
+    · simp [shown, hport, lower_eq, hstr, List.append_assoc, h1, h2, h3]
+    · intro c hc
+      have := decDigits_digits _ _ c hc
+      simp [Spec.isDigit]; omega
+    · intro q' hq'
+      simp only [Option.mem_def, Option.some.injEq] at hq'
+      subst hq'
+      exact decValue_natToDec (decValue q)
+
+/-! ### non-vacuity: the URL of the repository's own redaction test is in the grammar -/
+namespace UrlExamples
+open Spec
+
+def pEx : UrlParts where
+  scheme := "HTTPS".toList
+  userinfo := some "alice:p@ssword".toList
+  host := "Example.COM".toList
+  port := some "08443".toList
+  path := "/path/x".toList
+  query := some "X-Amz-Signature=secret&a=b?c".toList
+  fragment := some "fragment#2".toList
+
+example : WellFormed pEx where
+  scheme_ne := by decide
+  scheme_first := by decide
+  scheme_chars := by decide
+  userinfo_chars := by decide
+  host_ne := by decide
+  host_chars := by decide
+  port_ok := by decide
+  path_ok := by decide
+  path_chars := by decide
+  query_chars := by decide
+  fragment_chars := by decide
+
+example : (redact (fun _ => false) (render pEx) == "https://example.com:8443/path/x".toList) = true := by decide +kernel
+
+end UrlExamples
+
 end VgiVerif.C31
